@@ -351,8 +351,9 @@ impl TargetScheme for Operator {
                 exp.compile(buffer, ctx)?;
                 buffer.push_str(")");
             }
-            // We are not supposed to encounter explicit precendence in the AST
-            Operator::Precedence(_) => unreachable!(),
+            // The parser never leaves explicit precedence in the AST, but the public types allow
+            // building it: parentheses only group, so compile what they enclose
+            Operator::Precedence(exp) => exp.compile(buffer, ctx)?,
         }
 
         Ok(())
@@ -423,7 +424,9 @@ impl TargetScheme for Expression {
             Expression::Action(a) => a.compile(buffer, ctx),
             Expression::Operator(o) => o.as_ref().compile(buffer, ctx),
             Expression::Positional(p) => p.compile(buffer, ctx),
-            Expression::Global(_) => unreachable!(),
+            // The parser registers global options in RunOptions and never leaves them in the AST;
+            // one placed there through the public types has no policy code
+            Expression::Global(g) => Err(CompileError::UnsupportedOption(format!("{g:?}"))),
         }
     }
 }
